@@ -534,3 +534,304 @@ Proof.
   unfold data_try_new. destruct (255 <? nlen data); [discriminate|]. cbv zeta.
   match goal with |- (if ?b then _ else _) <> _ => destruct b; discriminate end.
 Qed.
+
+(* ------------------------------------------------------------------------------------ *)
+(** * 4. Valid encodings are accepted (round trip) *)
+
+Lemma hexval_hexdigit n : n < 16 -> hexval (hexdigit n) = Some n.
+Proof.
+  intros Hn.
+  assert (F : nrangeb 16 (fun n => option_eqb N.eqb (hexval (hexdigit n)) (Some n)) = true)
+    by (vm_compute; reflexivity).
+  pose proof (nrangeb_spec _ _ F n Hn) as H. cbv beta in H.
+  destruct (hexval (hexdigit n)) as [v|]; [|discriminate].
+  cbn [option_eqb] in H. apply N.eqb_eq in H. congruence.
+Qed.
+
+Lemma unhex_hex bs : bytesb bs = true -> unhex (hex bs) = Some bs.
+Proof.
+  unfold bytesb. induction bs as [|b bs IH]; cbn [forallb hex unhex]; [reflexivity|].
+  intros H. apply andb_prop in H as [Hb H]. unfold is_u8 in Hb. apply N.ltb_lt in Hb.
+  rewrite !hexval_hexdigit by lia. rewrite (IH H). do 2 f_equal. lia.
+Qed.
+
+Lemma xdigit_hex bs : bytesb bs = true -> forallb is_xdigit (hex bs) = true.
+Proof.
+  unfold bytesb. induction bs as [|b bs IH]; cbn [forallb hex]; [reflexivity|].
+  intros H. apply andb_prop in H as [Hb H]. unfold is_u8 in Hb. apply N.ltb_lt in Hb.
+  unfold is_xdigit at 1 2. rewrite !hexval_hexdigit by lia. rewrite (IH H). reflexivity.
+Qed.
+
+Lemma nlen_hex bs : nlen (hex bs) = 2 * nlen bs.
+Proof.
+  induction bs as [|b bs IH]; cbn [hex]; [reflexivity|].
+  rewrite !nlen_cons, IH. lia.
+Qed.
+
+Lemma fold_wsub_lt l : forall acc, acc < 256 -> fold_left wsub l acc < 256.
+Proof.
+  induction l as [|b l IH]; intros acc H; cbn [fold_left]; [exact H|].
+  apply IH. unfold wsub. lia.
+Qed.
+
+Lemma checksum_lt l : checksum l < 256.
+Proof. apply fold_wsub_lt. lia. Qed.
+
+(* The canonical byte string of a frame. *)
+Definition cbytes (f : frame) : list N := payload f ++ [checksum (payload f)].
+
+Lemma cbytes_bytes f : wf_frame f -> bytesb (cbytes f) = true.
+Proof.
+  unfold wf_frame, wf_frameb, cbytes, payload. intros H.
+  apply andb_prop in H as [H _]. apply andb_prop in H as [H Hd]. apply andb_prop in H as [_ Ht].
+  unfold bytesb in *. rewrite !forallb_app. cbn [forallb]. rewrite Hd, Ht.
+  pose proof (checksum_lt ([nlen (f_data f) mod 256; (f_addr f / 256) mod 256;
+                            f_addr f mod 256; f_type f] ++ f_data f)) as Hc.
+  unfold is_u8. lia.
+Qed.
+
+Lemma check_cbytes f : wf_frame f -> check (cbytes f) = Ok f.
+Proof.
+  unfold wf_frame, wf_frameb, cbytes. intros H.
+  apply andb_prop in H as [H Hl]. apply andb_prop in H as [H _]. apply andb_prop in H as [Ha _].
+  unfold is_u16 in Ha. apply N.ltb_lt in Ha. apply N.leb_le in Hl.
+  remember (checksum (payload f)) as ck eqn:Hck.
+  destruct f as [a ty d]. unfold payload in *. cbn [f_addr f_type f_data app] in *.
+  unfold check. rewrite split_last_app.
+  replace (nlen d mod 256) with (nlen d) in * by lia. rewrite N.eqb_refl.
+  unfold data_try_new. destruct (N.ltb_spec 255 (nlen d)); [lia|]. cbv zeta.
+  replace ((a / 256) mod 256 * 256 + a mod 256) with a by lia.
+  unfold payload. cbn [f_addr f_type f_data app].
+  replace (nlen d mod 256) with (nlen d) by lia.
+  rewrite <- Hck, N.eqb_refl. reflexivity.
+Qed.
+
+Lemma decode_intro text r :
+  forallb is_xdigit text = true -> r = text \/ r = text ++ [13; 10] ->
+  decode (58 :: r) = decode (58 :: text).
+Proof.
+  intros Hx Hr. unfold decode.
+  replace (strip_crlf r) with (strip_crlf text); [reflexivity|].
+  rewrite (strip_crlf_all _ Hx). destruct Hr as [->| ->].
+  - symmetry. apply strip_crlf_all. exact Hx.
+  - symmetry. apply strip_crlf_app.
+Qed.
+
+Lemma decode_encode f : wf_frame f -> decode (encode f) = Ok f.
+Proof.
+  intros W. unfold encode. fold (cbytes f). unfold decode.
+  change (58 =? 58) with true. cbv iota zeta.
+  pose proof (cbytes_bytes f W) as B.
+  rewrite (strip_crlf_all _ (xdigit_hex _ B)).
+  assert (S : shape (hex (cbytes f)) = true).
+  { unfold shape. rewrite (xdigit_hex _ B), nlen_hex, N.even_mul.
+    change (N.even 2) with true. cbn [andb orb].
+    unfold cbytes, payload. rewrite !nlen_app, !nlen_cons, nlen_nil. apply N.leb_le. lia. }
+  rewrite S, (unhex_hex _ B). apply check_cbytes. exact W.
+Qed.
+
+Lemma decode_encode_nl f : wf_frame f -> decode (encode_nl f) = Ok f.
+Proof.
+  intros W. rewrite <- (decode_encode f W). unfold encode_nl, encode. fold (cbytes f).
+  cbn [app]. apply decode_intro; [|right; reflexivity].
+  apply xdigit_hex, cbytes_bytes, W.
+Qed.
+
+(* ------------------------------------------------------------------------------------ *)
+(** * 5. Each corruption class: an accepted result is the original frame *)
+
+Lemma accepted_odd s g : decode s = Ok g -> exists k, length s = (2 * k + 1)%nat.
+Proof.
+  destruct s as [|c r]; [discriminate|]. intros H.
+  apply decode_cons in H as (_ & T & bs & U & _).
+  pose proof (f_equal (@length N) (xpre_xsuf r)) as L. rewrite app_length in L.
+  rewrite (unhex_length _ _ U) in L. cbn [length].
+  destruct T as [T|T]; rewrite T in L; cbn [length] in L.
+  - exists (length bs). lia.
+  - exists (S (length bs)). lia.
+Qed.
+
+Lemma corruption_delete s f i s' g :
+  decode s = Ok f -> corrupt (Delete i) s = Some s' -> decode s' = Ok g -> False.
+Proof.
+  intros Hs Hc Hs'. apply corrupt_delete_iff in Hc as (a & x & b & -> & _ & ->).
+  apply accepted_odd in Hs as [k Hk]. apply accepted_odd in Hs' as [k' Hk'].
+  rewrite app_length in *. cbn [length] in *. lia.
+Qed.
+
+Lemma corruption_dup s f i s' g :
+  decode s = Ok f -> corrupt (Dup i) s = Some s' -> decode s' = Ok g -> False.
+Proof.
+  intros Hs Hc Hs'. apply corrupt_dup_iff in Hc as (a & x & b & -> & _ & ->).
+  apply accepted_odd in Hs as [k Hk]. apply accepted_odd in Hs' as [k' Hk'].
+  rewrite app_length in *. cbn [length] in *. lia.
+Qed.
+
+Lemma corruption_trunc s f k s' g :
+  decode s = Ok f -> corrupt (Trunc k) s = Some s' -> decode s' = Ok g -> g = f.
+Proof.
+  intros Hs Hc Hs'. apply corrupt_trunc_iff in Hc as (b & -> & Hb & _).
+  destruct s' as [|c r']; [discriminate|]. cbn [app] in Hs.
+  apply decode_cons in Hs as (_ & T0 & bs0 & U0 & _ & C0 & L0 & D0 & _).
+  apply decode_cons in Hs' as (_ & T1 & bs1 & U1 & _ & C1 & L1 & D1 & _).
+  destruct (forallb is_xdigit r') eqn:Ha.
+  - destruct (xspan_app_all r' b Ha) as [P _]. rewrite P in U0.
+    destruct (xspan_all r' Ha) as [P1 _]. rewrite P1 in U1.
+    rewrite (unhex_app _ _ U1) in U0.
+    destruct (unhex (xpre b)) as [y|]; [|discriminate]. apply some_inj in U0. subst bs0.
+    destruct y as [|y0 y].
+    + rewrite app_nil_r in C0. congruence.
+    + exfalso. destruct bs1 as [|h bs1]; [change (nlen []) with 0 in L1; lia|].
+      cbn [app hd] in *. rewrite !nlen_cons, nlen_app, !nlen_cons in *. lia.
+  - exfalso. destruct (xspan_app_notall r' b Ha) as (_ & S & Hn). rewrite S in T0.
+    destruct T1 as [T1|T1]; [contradiction|]. rewrite T1 in T0. cbn [app] in T0.
+    destruct T0 as [T0|T0]; [discriminate|]. injection T0 as T0. contradiction.
+Qed.
+
+Lemma corruption_subst s f i c s' g :
+  decode s = Ok f -> corrupt (Subst i c) s = Some s' -> decode s' = Ok g -> g = f.
+Proof.
+  intros Hs Hc Hs'. apply corrupt_subst_iff in Hc as (a & x & b & -> & _ & ->).
+  destruct a as [|h a]; cbn [app] in *.
+  - pose proof (decode_cons _ _ _ Hs) as (-> & _).
+    pose proof (decode_cons _ _ _ Hs') as (-> & _). congruence.
+  - pose proof (decode_cons _ _ _ Hs) as (_ & T0 & bs0 & U0 & _ & C0 & _ & _ & S0).
+    pose proof (decode_cons _ _ _ Hs') as (_ & T1 & bs1 & U1 & _ & C1 & _ & _ & S1).
+    destruct (forallb is_xdigit a) eqn:Ha.
+    + destruct (xspan_app_all a (x :: b) Ha) as [P0 Q0].
+      destruct (xspan_app_all a (c :: b) Ha) as [P1 Q1].
+      rewrite P0 in U0. rewrite Q0 in T0. rewrite P1 in U1. rewrite Q1 in T1.
+      cbn [xpre xsuf] in *.
+      destruct (is_xdigit x) eqn:Hx, (is_xdigit c) eqn:Hcx.
+      * assert (bs0 = bs1) by (eapply hex_subst; eauto). subst bs1. congruence.
+      * exfalso. destruct T1 as [T1|T1]; [discriminate|]. injection T1 as -> ->.
+        vm_compute in T0. destruct T0; discriminate.
+      * exfalso. destruct T0 as [T0|T0]; [discriminate|]. injection T0 as -> ->.
+        vm_compute in T1. destruct T1; discriminate.
+      * destruct T0 as [T0|T0]; [discriminate|]. injection T0 as -> ->.
+        destruct T1 as [T1|T1]; [discriminate|]. injection T1 as ->. congruence.
+    + destruct (xspan_app_notall a (x :: b) Ha) as (_ & Q0 & Hn).
+      destruct (xspan_app_notall a (c :: b) Ha) as (_ & Q1 & _).
+      rewrite Q0 in T0. rewrite Q1 in T1.
+      destruct (xsuf a) as [|p [|q u]]; [contradiction| |]; cbn [app] in T0, T1.
+      * destruct T0 as [T0|T0]; [discriminate|]. injection T0 as -> -> ->.
+        destruct T1 as [T1|T1]; [discriminate|]. injection T1 as ->. congruence.
+      * exfalso. destruct T0 as [T0|T0]; [discriminate|]. injection T0 as _ _ T0.
+        destruct u; discriminate.
+Qed.
+
+Lemma corruption_swap s f i s' g :
+  decode s = Ok f -> corrupt (Swap i) s = Some s' -> decode s' = Ok g -> g = f.
+Proof.
+  intros Hs Hc Hs'. apply corrupt_swap_iff in Hc as (a & x & y & b & -> & _ & Hne & ->).
+  destruct a as [|h a]; cbn [app] in *.
+  - pose proof (decode_cons _ _ _ Hs) as (-> & _).
+    pose proof (decode_cons _ _ _ Hs') as (-> & _). contradiction.
+  - pose proof (decode_cons _ _ _ Hs) as (_ & T0 & bs0 & U0 & _ & C0 & _ & _ & S0).
+    pose proof (decode_cons _ _ _ Hs') as (_ & T1 & bs1 & U1 & _ & C1 & _ & _ & S1).
+    destruct (forallb is_xdigit a) eqn:Ha.
+    + destruct (xspan_app_all a (x :: y :: b) Ha) as [P0 Q0].
+      destruct (xspan_app_all a (y :: x :: b) Ha) as [P1 Q1].
+      rewrite P0 in U0. rewrite Q0 in T0. rewrite P1 in U1. rewrite Q1 in T1.
+      cbn [xpre xsuf] in *.
+      destruct (is_xdigit x) eqn:Hx, (is_xdigit y) eqn:Hy.
+      * assert (bs0 = bs1) by (eapply hex_swap; eauto). subst bs1. congruence.
+      * exfalso. destruct T1 as [T1|T1]; [discriminate|]. injection T1 as -> -> ->.
+        vm_compute in Hx. discriminate.
+      * exfalso. destruct T0 as [T0|T0]; [discriminate|]. injection T0 as -> -> ->.
+        vm_compute in Hy. discriminate.
+      * exfalso. destruct T0 as [T0|T0]; [discriminate|]. injection T0 as -> -> ->.
+        destruct T1 as [T1|T1]; discriminate.
+    + exfalso. destruct (xspan_app_notall a (x :: y :: b) Ha) as (_ & Q0 & Hn).
+      rewrite Q0 in T0.
+      destruct (xsuf a) as [|p [|q u]]; [contradiction| |]; cbn [app] in T0.
+      * destruct T0 as [T0|T0]; discriminate.
+      * destruct T0 as [T0|T0]; [discriminate|]. injection T0 as _ _ T0.
+        destruct u; discriminate.
+Qed.
+
+(* ------------------------------------------------------------------------------------ *)
+(** * 6. Main theorems *)
+
+(* Any accepted string, corrupted once, is rejected or decodes to the same frame. *)
+Theorem corruption_same s f c s' g :
+  decode s = Ok f -> corrupt c s = Some s' -> decode s' = Ok g -> g = f.
+Proof.
+  intros Hs Hc Hs'. destruct c as [i x|i|i|i|k].
+  - exact (corruption_subst _ _ _ _ _ _ Hs Hc Hs').
+  - destruct (corruption_delete _ _ _ _ _ Hs Hc Hs').
+  - destruct (corruption_dup _ _ _ _ _ Hs Hc Hs').
+  - exact (corruption_swap _ _ _ _ _ Hs Hc Hs').
+  - exact (corruption_trunc _ _ _ _ _ Hs Hc Hs').
+Qed.
+
+Theorem corruption_accepted_string s f c s' :
+  decode s = Ok f -> corrupt c s = Some s' ->
+  (exists e, decode s' = Err e /\ e <> FPanic) \/ decode s' = Ok f.
+Proof.
+  intros Hs Hc. destruct (decode s') as [g|e] eqn:E.
+  - right. f_equal. exact (corruption_same _ _ _ _ _ Hs Hc E).
+  - left. exists e. split; [reflexivity|]. intros ->. exact (decode_never_panics _ E).
+Qed.
+
+Theorem C02_corruption_proof : forall f s c s',
+  wf_frame f -> (s = encode f \/ s = encode_nl f) -> corrupt c s = Some s' ->
+  (exists e, decode s' = Err e /\ e <> FPanic) \/ decode s' = Ok f.
+Proof.
+  intros f s c s' W Hs Hc. apply (corruption_accepted_string s f c s'); [|exact Hc].
+  destruct Hs as [->| ->]; [apply decode_encode|apply decode_encode_nl]; exact W.
+Qed.
+
+(* Deletions and duplications are always rejected outright. *)
+Theorem corruption_delete_dup_rejected s f i s' :
+  decode s = Ok f -> (corrupt (Delete i) s = Some s' \/ corrupt (Dup i) s = Some s') ->
+  exists e, decode s' = Err e /\ e <> FPanic.
+Proof.
+  intros Hs Hc. destruct (decode s') as [g|e] eqn:E.
+  - exfalso. destruct Hc as [Hc|Hc].
+    + exact (corruption_delete _ _ _ _ _ Hs Hc E).
+    + exact (corruption_dup _ _ _ _ _ Hs Hc E).
+  - exists e. split; [reflexivity|]. intros ->. exact (decode_never_panics _ E).
+Qed.
+
+Theorem C02_len_ck_proof : forall s f,
+  decode s = Ok f ->
+  exists bs, hd_error s = Some 58 /\ unhex (strip_crlf (tl s)) = Some bs /\
+             5 <= nlen bs /\ hd 0 bs = nlen bs - 5 /\ sumN bs mod 256 = 0.
+Proof.
+  intros s f H. destruct s as [|c r]; [discriminate|].
+  apply decode_cons in H as (-> & _ & bs & U & E & _ & L & D & S).
+  exists bs. cbn [hd_error tl]. rewrite E. auto.
+Qed.
+
+(* The same, with the fields spelled out. *)
+Theorem C02_fields_proof : forall s f,
+  decode s = Ok f ->
+  exists len ah al ty data ck,
+    hd_error s = Some 58 /\
+    unhex (strip_crlf (tl s)) = Some (len :: ah :: al :: ty :: data ++ [ck]) /\
+    len = nlen data /\
+    ck = checksum (len :: ah :: al :: ty :: data) /\
+    f = {| f_addr := ah * 256 + al; f_type := ty; f_data := data |}.
+Proof.
+  intros s f H. destruct s as [|c r]; [discriminate|].
+  apply decode_cons in H as (-> & _ & bs & U & E & C & _).
+  pose proof (unhex_bytes _ _ U) as B.
+  apply check_inv in C as (len & ah & al & ty & data & ck & -> & Hl & Hd & -> & Hc).
+  exists len, ah, al, ty, data, ck. cbn [hd_error tl]. rewrite E.
+  split; [reflexivity|]. split; [exact U|]. split; [auto|]. split; [|reflexivity].
+  apply Forall_inv_tail in B. pose proof (Forall_inv B) as Bah. cbv beta in Bah.
+  apply Forall_inv_tail in B. pose proof (Forall_inv B) as Bal. cbv beta in Bal. clear B.
+  rewrite <- Hc. unfold payload. cbn [f_addr f_type f_data app].
+  f_equal. f_equal; [lia|]. f_equal; [lia|]. f_equal. lia.
+Qed.
+
+(* Contrapositive reading: a wrong declared length or a wrong checksum is never accepted. *)
+Theorem C02_bad_len_or_ck_rejected_proof : forall s bs,
+  unhex (strip_crlf (tl s)) = Some bs ->
+  (hd 0 bs <> nlen bs - 5 \/ sumN bs mod 256 <> 0) ->
+  forall f, decode s <> Ok f.
+Proof.
+  intros s bs U Hbad f H. destruct (C02_len_ck_proof s f H) as (bs' & _ & U' & _ & D & S).
+  rewrite U in U'. apply some_inj in U'. subst bs'. destruct Hbad; contradiction.
+Qed.
